@@ -88,6 +88,7 @@ type Ctx struct {
 	callNum   atomic.Int64 // numeric suffix of the key (-1: none); see CallN
 	budgetNs  int64
 	budgetCur atomic.Int64 // budget of the current unit (ns)
+	maxCharge atomic.Int64 // largest CPU time charged to one guarded call so far (ns)
 }
 
 type stopSentinel struct{}
@@ -221,6 +222,9 @@ func (c *Ctx) finish() {
 }
 
 func (c *Ctx) writeCum() {
+	if m := c.maxCharge.Load() / 1e6; m > c.obs["max:guarded_call_cpu_ms"] {
+		c.obs["max:guarded_call_cpu_ms"] = m
+	}
 	b, _ := json.Marshal(cumRec{Evals: c.evals, NTCons: c.ntByCons, Obs: c.obs})
 	c.write(Rec{T: "cum", Case: b})
 }
@@ -240,6 +244,9 @@ func (c *Ctx) watchdog() {
 		seq := c.callSeq.Load()
 		if c.active.Load() && seq == lastSeq {
 			charged += now - lastCPU
+			if charged > c.maxCharge.Load() {
+				c.maxCharge.Store(charged)
+			}
 		} else {
 			charged = 0
 		}
